@@ -82,22 +82,11 @@ def summary (coords : Array Nat) (d : Nat) : String :=
 
 /-! ### operation records on raw words -/
 
-def baseOps (F : FieldImpl) : BaseOps Nat where
-  one := F.new 1
-  mul := F.mul
-  exp := F.exp
-  inv := fun x => match F.inv x with
-    | .done r => some r
-    | .out => none
-  ofNat := F.new
-  isZero := fun x => F.eq x (F.new 0)
-  twoAdicity := F.twoAdicity
-  rootOfUnity := F.rootOfUnity
+def baseOps (F : FieldImpl) : BaseOps Nat := BaseOps.ofImpl F
 
 /-- an element of extension degree `d` is the array of its `d` base coordinates: `+`, `-`, `mul_base`
     and multiplication by an embedded base element act coordinate-wise -/
-def elemOps (F : FieldImpl) : Ops Nat (Array Nat) :=
-  rowOps F.add F.sub F.mul (fun x => F.eq x (F.new 0))
+def elemOps (F : FieldImpl) : Ops Nat (Array Nat) := coordOps F
 
 def parseOff (F : FieldImpl) (s : String) : Option Nat :=
   if s == "g" || s == "g!" then some F.generator else s.toNat?
